@@ -57,6 +57,20 @@ CHECKS.update({
    note="Any order-preserving pairing among identically written siblings is accepted. Expected values come from other runs of the same runtime, never from hand-written numbers.",
    design="4/C07"),
 })
+CHECKS.update({
+ "C11": dict(
+   technique="bounded-exhaustive enumeration of task programs (all scheduling times, insertion orders, periods, chains up to the task bound) run on the real VM and WASM schedulers and compared with a sorted-multiset reference at every sample (shape S)",
+   text="Every program with up to k tasks, each first scheduled from global scope at one of four times (equal and fractional times included) or chained from the previous task, and rescheduling itself with one of four periods, is run on both runtimes with the scheduler plugin; after every sample each task's run counter and the time it observed must equal the reference in which a task scheduled for w runs exactly once before dsp of sample floor(w).",
+   note="Per-task counter cells make same-sample ordering unobservable. Scheduling from inside dsp is not generated.",
+   design="4/C11"),
+})
+CHECKS.update({
+ "C03": dict(
+   technique="bounded-exhaustive enumeration of family programs and of all their deviation-1 type-changing mutants, compiled and run on both backends in crash-isolated workers with cfg-guarded bounds checks (shape E)",
+   text="Every program of the families below the bound and every near-miss mutant of it (each atom replaced by each of nine differently typed texts, plus whole-program mutants such as a stateful call at global scope or a delay with non-literal size) is compiled on VM and WASM; whatever the compile entry points accept must run global initialisation and N dsp calls without panic, abort, signal, hang or a bounds-hook report, and return the declared number of words. Rejection with a diagnostic is always fine.",
+   note="Out-of-bounds accesses of the VM's unchecked paths are detected by the additive bounds hooks (state storage, globals, upvalues, closure handles, delay sizes); stack accesses are covered only as far as they panic or crash the worker.",
+   design="4/C03"),
+})
 NOT_YET = {}
 
 def main():
